@@ -320,4 +320,111 @@ theorem moment_identity (shape : List Nat) (h : List Rat) (U : Nat → Rat) (a :
   rw [sumTo_congr blk]
   exact sumTo_ite_eq shape.length a (fun _ => vol h * sumTo (nfa shape a) (fun k => U (offset shape a + k))) ha
 
+/-! ### the scatter-built tables equal the pointwise ones -/
+
+theorem cellOf_eq_conn (shape : List Nat) (a k : Nat) (ha : a < shape.length) (hk : k < nfa shape a) :
+    loCellOf shape a k = (conn shape (offset shape a + k)).1 ∧ hiCellOf shape a k = (conn shape (offset shape a + k)).2 := by
+  obtain ⟨hax, hfi, _⟩ := face_block shape a k ha hk
+  constructor
+  · show _ = encF shape (faceIdx shape _); rw [hfi]; rfl
+  · show _ = encF shape (bump (faceIdx shape _) (faceAxis shape _)); rw [hfi, hax]; rfl
+
+theorem connFold_length (shape : List Nat) (side d : Nat) : (connFold shape side d).length = numFaces shape := by
+  induction d with
+  | zero => simp [connFold]
+  | succ d ih => simp [connFold, ih]
+
+theorem connFold_spec (shape : List Nat) (side d : Nat) (hd : d ≤ shape.length) :
+    ∀ f, f < offset shape d →
+      (connFold shape side d).getD f 0 = if side = 0 then (conn shape f).1 else (conn shape f).2 := by
+  induction d with
+  | zero => intro f hf; simp [offset] at hf
+  | succ d ih =>
+    intro f hf
+    have hdl : d < shape.length := by omega
+    simp only [connFold]
+    rcases Nat.lt_or_ge f (offset shape d) with h1 | h1
+    · rw [scatterN_miss _ _ _ _ _ _ (fun i _ => by omega)]
+      exact ih (by omega) f h1
+    · have hk : f - offset shape d < nfa shape d := by simp only [offset] at hf; omega
+      have hf' : f = offset shape d + (f - offset shape d) := by omega
+      have hit := scatterN_hit (connFold shape side d) (fun k => offset shape d + k)
+        (fun k => if side = 0 then loCellOf shape d k else hiCellOf shape d k) (nfa shape d) (f - offset shape d) 0
+        (fun i i' _ _ e => by simpa using e)
+        (fun i hi => by rw [connFold_length]; exact (face_block shape d i hdl hi).2.2) hk
+      rw [← hf'] at hit
+      rw [hit]
+      obtain ⟨e1, e2⟩ := cellOf_eq_conn shape d _ hdl hk
+      rw [e1, e2, ← hf']
+
+/-- `connectivity` as the code assembles it (zeros + one assignment per axis and column) is the pointwise `conn` -/
+theorem connTable_eq (shape : List Nat) (f : Nat) (hf : f < numFaces shape) :
+    (connTable shape 0).getD f 0 = (conn shape f).1 ∧ (connTable shape 1).getD f 0 = (conn shape f).2 := by
+  have h0 := connFold_spec shape 0 shape.length (Nat.le_refl _) f hf
+  have h1 := connFold_spec shape 1 shape.length (Nat.le_refl _) f hf
+  simp only [if_true] at h0
+  simp only [Nat.one_ne_zero, if_false] at h1
+  exact ⟨h0, h1⟩
+
+/-- `reverse_connectivity[a]` as the code assembles it (`-1` + two assignments through cell index arrays) is the
+pointwise `rev` -/
+theorem revTable_eq (shape : List Nat) (a c : Nat) (ha : a < shape.length) (hc : c < numCells shape) :
+    (revTable shape a 0).getD c (-1) = rev shape a c 0 ∧ (revTable shape a 1).getD c (-1) = rev shape a c 1 := by
+  have hidx := decF_inBox shape c hc
+  have inj2 : ∀ i i', i < nfa shape a → i' < nfa shape a → hiCellOf shape a i = hiCellOf shape a i' → i = i' := by
+    intro i i' hi hi' e
+    rw [(cellOf_eq_conn shape a i ha hi).2, (cellOf_eq_conn shape a i' ha hi').2] at e
+    have hlt := (conn_lt shape _ (face_block shape a i ha hi).2.2).2
+    have r1 := (conn_snd_eq_iff shape a _ i ha hlt hi).1 rfl
+    have r2 := (conn_snd_eq_iff shape a _ i' ha hlt hi').1 e
+    rw [r1.1, r2.1]
+  have inj1 : ∀ i i', i < nfa shape a → i' < nfa shape a → loCellOf shape a i = loCellOf shape a i' → i = i' := by
+    intro i i' hi hi' e
+    rw [(cellOf_eq_conn shape a i ha hi).1, (cellOf_eq_conn shape a i' ha hi').1] at e
+    have hlt := (conn_lt shape _ (face_block shape a i ha hi).2.2).1
+    have r1 := (conn_fst_eq_iff shape a _ i ha hlt hi).1 rfl
+    have r2 := (conn_fst_eq_iff shape a _ i' ha hlt hi').1 e
+    rw [r1.1, r2.1]
+  constructor
+  · simp only [revTable, rev, if_true]
+    by_cases h1 : 1 ≤ (decF shape c).getD a 0
+    · rw [if_pos h1]
+      have hb := inBox_unbump shape (decF shape c) a ha hidx h1
+      have hk := encF_lt _ _ hb
+      have hkey : hiCellOf shape a (encF (fshape shape a) (unbump (decF shape c) a)) = c := by
+        rw [(cellOf_eq_conn shape a _ ha hk).2]
+        exact ((conn_snd_eq_iff shape a c _ ha hc hk).2 ⟨rfl, h1⟩).symm
+      have hit := scatterN_hit (List.replicate (numCells shape) (-1 : Int)) (fun k => hiCellOf shape a k)
+        (fun k => ((offset shape a + k : Nat) : Int)) (nfa shape a) _ (-1) inj2
+        (fun i hi => by
+          rw [List.length_replicate, (cellOf_eq_conn shape a i ha hi).2]
+          exact (conn_lt shape _ (face_block shape a i ha hi).2.2).2) hk
+      simp only [hkey] at hit
+      rw [hit]; rfl
+    · rw [if_neg h1, scatterN_miss]
+      · simp [List.getD, hc]
+      · intro i hi e
+        rw [(cellOf_eq_conn shape a i ha hi).2] at e
+        exact h1 ((conn_snd_eq_iff shape a c i ha hc hi).1 e.symm).2
+  · simp only [revTable, rev, Nat.one_ne_zero, if_false]
+    by_cases h1 : (decF shape c).getD a 0 + 1 < shape.getD a 0
+    · rw [if_pos h1]
+      have hb := (inBox_fshape shape (decF shape c) a ha).2 ⟨hidx, h1⟩
+      have hk := encF_lt _ _ hb
+      have hkey : loCellOf shape a (encF (fshape shape a) (decF shape c)) = c := by
+        rw [(cellOf_eq_conn shape a _ ha hk).1]
+        exact ((conn_fst_eq_iff shape a c _ ha hc hk).2 ⟨rfl, h1⟩).symm
+      have hit := scatterN_hit (List.replicate (numCells shape) (-1 : Int)) (fun k => loCellOf shape a k)
+        (fun k => ((offset shape a + k : Nat) : Int)) (nfa shape a) _ (-1) inj1
+        (fun i hi => by
+          rw [List.length_replicate, (cellOf_eq_conn shape a i ha hi).1]
+          exact (conn_lt shape _ (face_block shape a i ha hi).2.2).1) hk
+      simp only [hkey] at hit
+      rw [hit]; rfl
+    · rw [if_neg h1, scatterN_miss]
+      · simp [List.getD, hc]
+      · intro i hi e
+        rw [(cellOf_eq_conn shape a i ha hi).1] at e
+        exact h1 ((conn_fst_eq_iff shape a c i ha hc hi).1 e.symm).2
+
 end Darsia
